@@ -247,7 +247,7 @@ def spec_permitted(pgn, mid, exclude, include):
     included = (not include) or pgn in in_n or mid.lower() in in_i
     return (not excluded) and included
 
-def filter_table(chk, program):
+def filter_table(chk, program, max_entries=2):
     consts = module_consts(program)
     sf = split_facts(program)
     cf = ctor_facts(program)
@@ -267,6 +267,8 @@ def filter_table(chk, program):
               expected=f"ISO_CLAIM_PGN/ISO_CLAIM_PGN_ID name database definition {consts['ISO_CLAIM_PGN']}", found=[d.key for d in claim])
     uni = universe(consts, P, Q, ID, OTHER)
     configs = [()] + [(a,) for a in uni] + list(itertools.combinations(uni, 2))
+    if max_entries >= 3:
+        configs += list(itertools.combinations(uni, 3))
     nmodels = 0
     disagreements = {}
     for mode in ('exclude', 'include'):
